@@ -99,6 +99,22 @@ class Configuration(object):
             except (AttributeError, TypeError, ValueError) as ex:
                 # values of the wrong type or shape (a number where a section is expected, text where a number is...)
                 raise ConfigurationError(f'Invalid value in connection "{connection_name}": {ex}')
+        self._assign_default_indices()
+
+    def _assign_default_indices(self):
+        """ Gives an index to the "protect" entries that have none. The index tells the entries apart when the kernel
+            sends an acquire, so it must differ from every other entry's, explicit or drawn
+        """
+        used = {ipsecconf.index for ikeconf in self.ike_configurations.values() for ipsecconf in ikeconf.protect
+                if ipsecconf.index is not None}
+        for ikeconf in self.ike_configurations.values():
+            for position, ipsecconf in enumerate(ikeconf.protect):
+                if ipsecconf.index is None:
+                    index = random.randint(0, 2 ** 20)
+                    while index in used:
+                        index = random.randint(0, 2 ** 20)
+                    used.add(index)
+                    ikeconf.protect[position] = ipsecconf._replace(index=index)
 
     def _load_ike_conf(self, name, conf_dict, my_addresses):
         encr = self._load_crypto_algs('encr', conf_dict.get('encr', ['aes256']), _encr_name_to_transform)
@@ -178,7 +194,7 @@ class Configuration(object):
         peer_port = int(conf_dict.get('peer_port', 0))
 
         return IpsecConfiguration(
-            index=int(conf_dict.get('index', random.randint(0, 2 ** 20))),
+            index=int(conf_dict['index']) if 'index' in conf_dict else None,
             my_ts=TrafficSelector.from_network(my_subnet, my_port, ip_proto),
             peer_ts=TrafficSelector.from_network(peer_subnet, peer_port, ip_proto),
             lifetime=int(conf_dict.get('lifetime', 5 * 60)),
